@@ -265,7 +265,11 @@ class TransferOps:
         host, path = pool_path.split(":")
 
         session = TransferOps.get_session(host, params)
-        remote_hash = ops.hash_file(session, path, "1M", "md5")
+        status, _ = session.cmd_status_output(f"test -e {path}")
+        if status == 0:
+            remote_hash = ops.hash_file(session, path, "1M", "md5")
+        else:
+            remote_hash = ""
 
         return local_hash == remote_hash
 
